@@ -817,7 +817,15 @@ func runC13Async(rc *RunCtx) {
 		stuck := func(order []string) bool {
 			return len(order) > 0 && !deliveredSet[order[len(order)-1]]
 		}
-		if aligned && (stuck(outOrder) || stuck(errOrder)) {
+		concurrentProducers := false
+		for _, b := range bursts {
+			if b.par > 1 {
+				concurrentProducers = true
+			}
+		}
+		// a collision on a ring slot - poller against producer (aligned bursts) or two producers a lap apart (concurrent
+		// bursts) - makes the losing producer skip a sequence number, and the reader waits on that hole
+		if (aligned || concurrentProducers) && (stuck(outOrder) || stuck(errOrder)) {
 			cls = "ring-reader-stuck-on-stale-slot"
 		}
 		viol(cls, fmt.Sprintf("sent %d messages (%d output, %d error), delivered %d + %d, reported dropped %d: %d messages vanished without a report", sent, len(sentOut), len(sentErr), dOut, dErr, reported, lost-reported))
